@@ -622,7 +622,7 @@ func blockedCases(r *core.Run) []BlockCase {
 	heads := core.Pick(r, []int{0, 7, 5000}, []int{0, 1, 7, 511, 512, 513, 5000, 70000})
 	var cs []BlockCase
 	add := func(c BlockCase) {
-		c.Kind, c.PatienceMs, c.SettleMs = "blocked-read", 3000, 150
+		c.Kind, c.PatienceMs, c.SettleMs = "blocked-read", 2000, 150
 		cs = append(cs, c)
 	}
 	for _, stay := range []bool{true, false} {
@@ -696,6 +696,13 @@ func blockedReads(r *core.Run) {
 			if confirmed[sig] {
 				continue // core folds by signature
 			}
+			if obs.hung && !obs.inside && len(slowHang) > 0 {
+				// a hang concluded from the patience was reproduced with the long patience in this
+				// process already: not again for every kind of input
+				confirmed[sig], slowHang[key] = true, true
+				r.Violate(sig, fmt.Sprintf("%+v: %s", c, bad), c)
+				continue
+			}
 			// classify before believing: again, with a much longer patience and settle time
 			c2 := c
 			c2.PatienceMs, c2.SettleMs = 20000, 1500
@@ -717,6 +724,6 @@ func blockedReads(r *core.Run) {
 	r.Eval(n)
 	r.AddTransitions(n)
 	r.AddTraces(n)
-	r.Sample(map[string]any{"blocked_read_case": BlockCase{Kind: "blocked-read", Mode: "api", File: "pipe", Head: 7, Via: "tobytes", Depth: 1, Stay: true, PatienceMs: 3000, SettleMs: 150}})
+	r.Sample(map[string]any{"blocked_read_case": BlockCase{Kind: "blocked-read", Mode: "api", File: "pipe", Head: 7, Via: "tobytes", Depth: 1, Stay: true, PatienceMs: 2000, SettleMs: 150}})
 	r.Section("interrupt-inside-blocked-input-read")
 }
